@@ -39,7 +39,7 @@ impl Property for Prop {
         "C05"
     }
     fn rule(&self) -> &'static str {
-        "short: every byte string of length 0..=2 (quick) / 0..=3 (thorough) in each of 15 receiver states (empty / one / full free list, zero slots, open context on the probed id / an aliasing id / every slot, context nearly full, storage smaller than fragments, remembered 3- and 6-byte label, manager knowing all / some / no mandatory ids, 256 slots, every slot open with the free list refilled); headers: every 16-bit header word x buffer length in {2,3,4,announced-1,announced,announced+1,announced+7} x structured tails (frag ids matching / aliasing / unknown, total length 0/1/2/0xFFFF, extension ids of every H-LEN, mandatory known/unknown ids, zero labels, zeros, FF, random), states rotated; mutated: packets of valid hand-made trains with bit flips, truncations, length-field edits, field splices; random: buffers up to 8 KiB; histories: sequences of 1..60 hostile packets on one decapsulator (state evolves, storage re-provisioned at random), incl. a state with 70000-byte storage and a context near 65535 bytes. Every decap / peek call is an evaluation; fingerprint = hash(state, input bytes); non-trivial = input of at least 2 bytes that is not padding (reaches a packet-kind handler)."
+        "short: every byte string of length 0..=2 (quick) / 0..=3 (thorough) in each of 15 receiver states (empty / one / full free list, zero slots, open context on the probed id / an aliasing id / every slot, context nearly full, storage smaller than fragments, remembered 3- and 6-byte label, manager knowing all / some / no mandatory ids (incl. ids declared with 253 / 254 / 255 data bytes, final and non-final), 256 slots, every slot open with the free list refilled); headers: every 16-bit header word x buffer length in {2,3,4,announced-1,announced,announced+1,announced+7} x structured tails (frag ids matching / aliasing / unknown, total length 0/1/2/0xFFFF, extension ids of every H-LEN, mandatory known/unknown ids, zero labels, zeros, FF, random), states rotated; mutated: packets of valid hand-made trains with bit flips, truncations, length-field edits, field splices; random: buffers up to 8 KiB; histories: sequences of 1..60 hostile packets on one decapsulator (state evolves, storage re-provisioned at random), incl. a state with 70000-byte storage and a context near 65535 bytes. Every decap / peek call is an evaluation; fingerprint = hash(state, input bytes); non-trivial = input of at least 2 bytes that is not padding (reaches a packet-kind handler)."
     }
     fn gens(&self, cx: &Cx) -> Vec<Gen> {
         vec![
